@@ -683,7 +683,7 @@ def check_rwp(line, meta, h, d, dq, stats):
 def run(ctx):
     ctx.proof_stage()
     if not ctx.quick():
-        bad = vlib.leanchecker(['BFL.Props.C07', 'BFL.Proofs.Resample', 'BFL.Proofs.ResampleList', 'BFL.Proofs.ResampleLog', 'BFL.Proofs.ResampleSet', 'BFL.Proofs.ResamplePrior', 'BFL.Model.Resample'])
+        bad = vlib.leanchecker(['BFL.Props.C07', 'BFL.Proofs.Resample', 'BFL.Proofs.ResampleList', 'BFL.Proofs.ResampleLog', 'BFL.Proofs.ResampleSet', 'BFL.Proofs.ResamplePrior', 'BFL.Proofs.ResampleSortIndep', 'BFL.Model.Resample'])
         ctx.coverage["leanchecker"] = "failed: %s" % bad if bad else "all modules re-checked"
         if bad:
             ctx.violation("leanchecker", "leanchecker rejects compiled modules: %s" % bad, {"modules": bad}, no_input=True)
